@@ -71,6 +71,12 @@ def run(ctx):
                f"current_target_efficiency returns {T.show(ret)[:300]}")
     target_prev = T.substitute(ret, {bb: T.atom("beta")})
 
+    # ---- the temperature the loop moves to is the search result itself: one update per iteration, by determine_beta on the current state
+    from ..report import reuse as _reuse
+    from . import c06 as _c06
+    _reuse(ctx, lambda c: _c06.run(c, shared=False), ("C06.once",), "C07once",
+           "update rule shared with C06: a temperature changed again after the search (a nudge, a snap, a second assignment) is no longer the largest step that meets the ESS target",
+           only=lambda f: "| beta" in f.key or "update" in f.key or f.key.count("|") >= 2)
     # ---- the options in force are this call's options
     from .smcloop import fold_sample
     sfo = fold_sample(repo, resumed=False, final=False)
@@ -234,6 +240,10 @@ MUTANTS = [
 MUTANTS += [
     M("target option never installed", _B, "self.target_efficiency = target_efficiency\n        self.target_efficiency_rate = target_efficiency_rate", "self.target_efficiency_rate = target_efficiency_rate", "C07.opts"),
     M("scalar target switches the ramp on", _B, "self._target_efficiency = value\n            self._adapative_target_efficiency = False", "self._target_efficiency = value\n            self._adapative_target_efficiency = True", "C07.opts"),
+]
+MUTANTS += [
+    M("loop nudges a stalled temperature past the search result", "src/aspire/samplers/smc/base.py", "self.history.eff_target.append(\n                    self.current_target_efficiency(beta)\n                )",
+      "if beta <= self.history.beta[-1] if self.history.beta else False:\n                    beta = min(beta + beta_tolerance, 1.0)\n                self.history.eff_target.append(\n                    self.current_target_efficiency(beta)\n                )", "C07once.once"),
 ]
 NEUTRALS = [
     __import__("aspire_sa.rules.smcloop", fromlist=["HELPER_NEUTRAL"]).HELPER_NEUTRAL,
